@@ -39,6 +39,27 @@ from qibo import Circuit, gates
 from qibo.backends import NumpyBackend
 from qibo.transpiler.router import ShortestPaths, Sabre, StarConnectivityRouter
 
+import signal, contextlib
+
+
+class RouterTimeout(Exception):
+    pass
+
+
+@contextlib.contextmanager
+def time_limit(seconds):
+    """a router call that does not return is a failure, not a hang of the check."""
+    def handler(signum, frame):
+        raise RouterTimeout(f"no result after {seconds} s")
+    old = signal.signal(signal.SIGALRM, handler)
+    signal.setitimer(signal.ITIMER_REAL, seconds)
+    try:
+        yield
+    finally:
+        signal.setitimer(signal.ITIMER_REAL, 0)
+        signal.signal(signal.SIGALRM, old)
+
+
 _NB = NumpyBackend()
 MARK = np.array([[2, 1], [1, 0]], dtype=complex)   # stand-in operator of a measurement
 
@@ -161,6 +182,8 @@ def split_clash_class(queue, detach):
 
 
 def raise_kind(e, queue, detach=True):
+    if isinstance(e, RouterTimeout):
+        return "hangs"
     kind = f"raises:{type(e).__name__}"
     if isinstance(e, KeyError) and not ("already exists in circuit" in str(e) and split_clash_class(queue, detach)):
         kind += ":other"
@@ -205,7 +228,8 @@ def run_case(case, calls=1):
         c = build_circuit(case["n"], case["wire_names"], case["gates"], case.get("dm", False))
         before = snapshot(c)
         try:
-            routed, layout = router(c)
+            with time_limit(20):
+                routed, layout = router(c)
         except Exception as e:  # routers must accept every circuit of 1- and 2-qubit gates
             bad.append((raise_kind(e, c.queue) if k == 0 else "reuse", f"call {k+1}: {type(e).__name__}: {e}"))
             break
@@ -415,11 +439,16 @@ class Recorder:
             return cm is getattr(rec.router, "circuit_map", None)
 
         def snap(cm):
+            if len(rec.actions) > 4000:
+                raise RuntimeError("more than 4000 routing actions on a circuit of at most 30 gates")
             try:  # reading the block list has no side effect on the measurement gates
-                gl = [g for b in cm._routed_blocks() for g in b.gates]
+                bl = cm._routed_blocks()
+                k = sum(len(b.gates) for b in bl)
+                last = next((b.gates[-1] for b in reversed(bl) if b.gates), None)
             except AttributeError:
                 gl = list(cm.routed_circuit().queue)
-            return (list(cm.physical_to_logical), list(cm.logical_to_physical), [rec.tag(g) for g in gl])
+                k, last = len(gl), (gl[-1] if gl else None)
+            return (list(cm.physical_to_logical), list(cm.logical_to_physical), k, rec.tag(last) if last is not None else None)
 
         def update(cm, logical_swap):
             out = rec.orig[0](cm, logical_swap)
@@ -517,13 +546,15 @@ def fail_case(ctx, case, calls, bad, broken):
     # shrink the gate list while the same kinds of failure stay
     cur = dict(case)
     gl = list(case["gates"])
-    changed = True
+    changed = "hangs" not in kinds
     budget = 150
-    while changed and budget > 0:
+    import time as _time
+    t_end = _time.time() + 45
+    while changed and budget > 0 and _time.time() < t_end:
         changed = False
         for i in range(len(gl) - 1, -1, -1):
             budget -= 1
-            if budget <= 0:
+            if budget <= 0 or _time.time() > t_end:
                 break
             trial = gl[:i] + gl[i + 1:]
             cur["gates"] = trial
@@ -558,10 +589,12 @@ def route_and_record(ctx, st, case, record=True):
     try:
         if record and case["router"] != "StarConnectivityRouter":
             with Recorder(router, tag) as rec:
-                routed, layout = router(c)
+                with SPEC["time_limit"](20):
+                    routed, layout = router(c)
             actions = rec.actions
         else:
-            routed, layout = router(c)
+            with SPEC["time_limit"](20):
+                routed, layout = router(c)
             actions = None
     except Exception as e:
         if case["router"] == "StarConnectivityRouter" and type(e).__name__ == "ConnectivityError":
@@ -594,7 +627,7 @@ def route_and_record(ctx, st, case, record=True):
     toks.append(str(len(actions)))
     exp = ""
     executed = []
-    for act, (p2l, l2p, rt) in actions:
+    for act, (p2l, l2p, nrt, lastg) in actions:
         if act[0] == "X":
             toks.append(f"X {len(act[1])} " + " ".join(gtoks(g) for g in act[1]))
             executed += act[1]
@@ -605,8 +638,8 @@ def route_and_record(ctx, st, case, record=True):
         else:
             toks.append("Z")
             ctx.stat("action_undo")
-        last = gstr(rt[-1]) if rt else "-"
-        exp += f"{' '.join(map(str, p2l))} | {' '.join(map(str, l2p))} | {len(rt)} | {last} ;"
+        last = gstr(lastg) if lastg is not None else "-"
+        exp += f"{' '.join(map(str, p2l))} | {' '.join(map(str, l2p))} | {nrt} | {last} ;"
     exp += " F " + " , ".join(gstr(g) for g in real_routed) + " L " + " ".join(map(str, lay))
     st.lines.append(" ".join(toks))
     st.expect.append(("replay", exp, case))
@@ -646,6 +679,9 @@ def process_driver(ctx, st):
             if pick.strip() != "1":
                 st.note("pick", f"pickCheck rejects the real execution order: {json.dumps(case)[:600]}")
         elif kind == "star":
+            line, _, gbit = line.partition(" # ")
+            if gbit.strip() == "0":
+                st.note("guard", f"an action of the star loop violates its guard on the star graph: {json.dumps(case)[:600]}")
             if line.strip() != exp.strip():
                 st.note("star", f"star model `{line.strip()[:300]}` real `{exp.strip()[:300]}` case {json.dumps(case)[:600]}")
                 case["_corr"] = True
@@ -782,7 +818,8 @@ def samples_suite(ctx):
         Gx = SPEC["build_graph"](case["edges"], case["nodes"])
         c = SPEC["build_circuit"](case["n"], case["wire_names"], case["gates"])
         try:
-            routed, layout = SPEC["make_router"](router, Gx, case["opts"])(c)
+            with SPEC["time_limit"](20):
+                routed, layout = SPEC["make_router"](router, Gx, case["opts"])(c)
             c2 = SPEC["build_circuit"](case["n"], case["wire_names"], case["gates"])
             f_in = c2(nshots=3).frequencies(registers=True)
             f_out = routed(nshots=3).frequencies(registers=True)
@@ -822,7 +859,8 @@ def asserts_suite(ctx):
         n = case["n"]
         wn = case["wire_names"]
         try:
-            routed, layout = SPEC["make_router"](router, Gx.copy(), case["opts"])(c)
+            with SPEC["time_limit"](20):
+                routed, layout = SPEC["make_router"](router, Gx.copy(), case["opts"])(c)
         except Exception:
             continue  # reported by the router suites
         if SPEC["check_routing"](c, Gx, routed, layout, False):
@@ -887,7 +925,8 @@ def blocks_and_dag_suite(ctx, st):
         before = SPEC["snapshot"](c)
         for fuse in (True, False):
             try:
-                blocks = block_decomposition(c, fuse=fuse)
+                with SPEC["time_limit"](10):
+                    blocks = block_decomposition(c, fuse=fuse)
             except Exception as e:
                 nbad += 1
                 code = (SPEC_SRC + "\nfrom qibo.transpiler.blocks import block_decomposition\n"
@@ -926,7 +965,8 @@ def blocks_and_dag_suite(ctx, st):
                          broken=["C09_search_blocks"])
             if fuse:
                 pairs = [tuple(b.qubits) for b in blocks]
-                dag = _create_dag(pairs)
+                with SPEC["time_limit"](10):
+                    dag = _create_dag(pairs)
                 want = set()
                 dep = nx.DiGraph()
                 dep.add_nodes_from(range(len(pairs)))
@@ -948,7 +988,8 @@ def blocks_and_dag_suite(ctx, st):
     for r in range(600 if ctx.thorough else 150):
         n = rng.randint(2, 6)
         pairs = [tuple(sorted(rng.sample(range(n), 2))) for _ in range(rng.randint(0, 14))]
-        dag = _create_dag(pairs)
+        with SPEC["time_limit"](10):
+            dag = _create_dag(pairs)
         dep = nx.DiGraph()
         dep.add_nodes_from(range(len(pairs)))
         dep.add_edges_from((i, j) for i in range(len(pairs)) for j in range(i + 1, len(pairs)) if set(pairs[i]) & set(pairs[j]))
